@@ -100,6 +100,9 @@ func nulClass(d []byte) string {
 	return "nul-inside"
 }
 
+// c15ForceTs: set by the first-use stage (the timestamp of the exchange is given, not drawn).
+var c15ForceTs *uint32
+
 func c15Case(c *fw.Case, targeted bool) {
 	r := c.R
 	fam := []string{"cmpp20", "cmpp30", "smgp30"}[c.Idx%3]
@@ -108,6 +111,9 @@ func c15Case(c *fw.Case, targeted bool) {
 		zeros, maxAcct = 7, 8
 	}
 	cr := genCreds(r, maxAcct)
+	if c15ForceTs != nil {
+		cr.ts = *c15ForceTs
+	}
 	if targeted {
 		cr = withZeroAt(r, cr, zeros, r.Pick(0, 8, 15))
 	}
@@ -366,6 +372,22 @@ func init() {
 			"oracles use the timestamp stored in the PDU, never the wall clock",
 		},
 		Stages: []*fw.Stage{
+			{
+				// the very first exchange of a process: every worker process starts here, so whatever the library keeps
+				// between calls (caches, pools, lazily built tables) is still in its initial state; the timestamps are the
+				// ends of the range, 0 first
+				Name: "first-use", N: func(fw.Tier) uint64 { return 96 },
+				Run: func(c *fw.Case) {
+					ts := uint32(0)
+					if c.Idx >= 48 {
+						ts = []uint32{1231235959, 1, 101000000, 999999999, 1000000000, 4294967295}[c.Idx%6]
+					}
+					c15ForceTs = &ts
+					defer func() { c15ForceTs = nil }()
+					c15Case(c, c.Idx%2 == 1)
+					c.Cover(fmt.Sprintf("first-use/%d", ts))
+				},
+			},
 			{Name: "random", N: q(150000, 100000000), Run: func(c *fw.Case) { c15Case(c, false) }},
 			{Name: "zero-octet-digests", N: q(30000, 10000000), Run: func(c *fw.Case) { c15Case(c, true) }},
 			{
